@@ -44,11 +44,16 @@ const (
 	qStmt1 // DECLARE … CURSOR FOR ps1 (placeholder: OPEN … USING k; qarg is the value of the last accepted OPEN)
 	qCount // the query has an observable side effect: every evaluation adds 1 to @cnt (directly / through a function)
 	qSrc   // over the temporary view sv, which the history disposes and declares again
+	qRe    // the query calls the user-defined function rf (once: LIMIT clause / once per row: WHERE clause), whose body the
+	//        history replaces before an OPEN by statements on this and on other cursors (reentrant.go)
+	qInto // FOR a prepared SELECT … INTO: with more than one row in t the evaluation fails AFTER the view was built
+	//        (Select returns the view AND the error): the OPEN fails, the cursor must stay closed
 	nQueries
 )
 
 const ps0Text = "SELECT id, v FROM t ORDER BY id"
 const ps1Text = "SELECT id, v FROM t WHERE id > ?"
+const psiText = "SELECT id, v INTO @i1, @i2 FROM t"
 
 var svRows = []string{"I1," + strTok("s"), "I2," + strTok("t"), "I3," + strTok("u")}
 
@@ -86,6 +91,8 @@ func queryText(k, arg int) string {
 		return "ps0"
 	case qStmt1:
 		return "ps1"
+	case qInto:
+		return "psi"
 	case qCount:
 		if arg%2 == 0 {
 			return "SELECT id, v FROM t LIMIT (@cnt := @cnt + 1) * 0 + 1000"
@@ -93,6 +100,11 @@ func queryText(k, arg int) string {
 		return "SELECT id, v FROM t LIMIT bump() * 0 + 1000"
 	case qSrc:
 		return "SELECT id, v FROM sv"
+	case qRe:
+		if arg%2 == 0 {
+			return "SELECT id, v FROM t LIMIT rf() * 0 + 1000"
+		}
+		return "SELECT id, v FROM t WHERE rf() = 0"
 	}
 	return "SELECT id FROM t"
 }
@@ -146,7 +158,7 @@ func evalQuery(k, arg int, t []row) []string {
 				out = append(out, r.idTok+","+r.vTok)
 			}
 		}
-	case qCount:
+	case qCount, qRe, qInto:
 		for _, r := range t {
 			out = append(out, r.idTok+","+r.vTok)
 		}
@@ -182,6 +194,8 @@ type hist struct {
 	cntBefore string
 	hung      bool // a statement of this history never returned: the session is abandoned
 	svGone    bool // DISPOSE VIEW sv happened: evaluating a cursor over sv fails
+	forceNeg  bool // scripted histories: the status expression in its negated spelling (IS NOT OPEN / IS NOT IN RANGE)
+	forceQArg *int // scripted histories: the argument of the declared cursor's query (qRe: 0 = rf() in LIMIT, 1 = in WHERE)
 }
 
 // sourceGone: evaluating the cursor's query now fails, with this error number
@@ -191,6 +205,8 @@ func (h *hist) sourceGone(c *cursor) (bool, string) {
 		return true, "E13802" // statement ps1 does not exist
 	case c.qkind == qSrc && h.svGone:
 		return true, "E90181" // file sv does not exist
+	case c.qkind == qInto && len(h.t) > 1:
+		return true, "E14002" // select into query returns too many records
 	}
 	return false, ""
 }
@@ -364,8 +380,9 @@ func (h *hist) setup(fixedFile bool, fixedN int) {
 			must(h.exec("INSERT INTO t VALUES " + strings.Join(vals, ", ") + ";"))
 		}
 	}
-	must(h.exec("VAR @a, @b, @c, @d, @e, @s, @n; DECLARE lg VIEW (a, b); DECLARE lp VIEW (t, a, b);"))
-	must(h.exec(fmt.Sprintf("VAR @cnt := 0; PREPARE ps0 FROM '%s'; PREPARE ps1 FROM '%s'; DECLARE sv VIEW (id, v); INSERT INTO sv VALUES (1, 's'), (2, 't'), (3, 'u'); DECLARE bump FUNCTION () AS BEGIN @cnt := @cnt + 1; RETURN @cnt; END;", ps0Text, ps1Text)))
+	must(h.exec("VAR @a, @b, @c, @d, @e, @s, @n, @k; DECLARE lg VIEW (a, b); DECLARE lp VIEW (t, a, b);"))
+	must(h.exec(fmt.Sprintf("VAR @i1, @i2; PREPARE psi FROM '%s';", psiText)))
+	must(h.exec(fmt.Sprintf("VAR @cnt := 0; PREPARE ps0 FROM '%s'; PREPARE ps1 FROM '%s'; DECLARE sv VIEW (id, v); INSERT INTO sv VALUES (1, 's'), (2, 't'), (3, 'u'); DECLARE bump FUNCTION () AS BEGIN @cnt := @cnt + 1; RETURN @cnt; END; %s", ps0Text, ps1Text, rfTrivial)))
 	h.o.Case("c16.reset", "ok")
 }
 
@@ -537,6 +554,9 @@ func (h *hist) stepDeclare(forcedName string, forcedQ int) {
 	qa := h.g.Intn(len(h.t) + 3)
 	if forcedName != "" {
 		name, qk = forcedName, forcedQ
+	}
+	if h.forceQArg != nil {
+		qa = *h.forceQArg
 	}
 	err := h.exec(fmt.Sprintf("DECLARE %s CURSOR FOR %s;", name, queryText(qk, qa)))
 	impl := "ok"
@@ -788,8 +808,24 @@ func (h *hist) stepFetch(forcedName, forcedPos string) {
 	if cols == 1 {
 		vars = "@a"
 	}
+	// the number also through a variable: FETCH must leave its operand alone (seed C16-m8: the evaluated Integer — the
+	// variable's own value object, a literal of the syntax tree — was given back to the value pool; an integer
+	// allocated afterwards, here 1 + 1, then overwrites it; with poisoned discards it shows at once)
+	viaVar := (pos == "abs" || pos == "rel") && num != math.MinInt64 && g.Intn(4) == 0
+	pre := ""
+	if viaVar {
+		pre = fmt.Sprintf("@k := %d; ", num)
+		sqlPos = map[string]string{"abs": "ABSOLUTE", "rel": "RELATIVE"}[pos] + " @k"
+	}
 	before, hadPtr := h.realPointer(name)
-	err := h.exec(fmt.Sprintf("@a := '~'; @b := '~'; FETCH %s %s INTO %s;", sqlPos, name, vars))
+	err := h.exec(fmt.Sprintf("@a := '~'; @b := '~'; %sFETCH %s %s INTO %s; @s := 1 + 1;", pre, sqlPos, name, vars))
+	if viaVar && !h.hung {
+		h.o.Count("fetch_offset_in_variable")
+		if k, want := h.getVar("k"), fmt.Sprintf("I%d", num); k != want {
+			h.law("fetch_changes_its_offset_operand", map[string]interface{}{"name": name, "fetch": opPos, "variable_before": want, "variable_after": k})
+			h.aborted = true
+		}
+	}
 	impl := ""
 	if err != nil {
 		impl = errTok(err)
@@ -957,7 +993,7 @@ func (h *hist) stepStatus(forcedKind int) {
 		op, sql = "inrange", fmt.Sprintf("@s := CURSOR %s IS IN RANGE;", name)
 	}
 	neg := false
-	if kind != 0 && h.g.Intn(4) == 0 {
+	if kind != 0 && (h.g.Intn(4) == 0 || h.forceNeg) {
 		neg = true
 		sql = strings.Replace(sql, " IS ", " IS NOT ", 1)
 	}
@@ -1342,8 +1378,10 @@ func (h *hist) run(steps int) int {
 				} else {
 					h.stepStatus(-1)
 				}
-			case w < 56:
+			case w < 52:
 				h.stepFetch("", "")
+			case w < 56:
+				structured(func() bool { return h.stepOpenRe("", nil) })
 			case w < 57:
 				h.stepFetchBad()
 			case w < 67:
@@ -1420,6 +1458,15 @@ func scripted(g *hc.Gen, o *hc.Out, dir string, seed int64) (int, string) {
 		// the source is disposed while the cursor is open: OPEN is still "already open"; closed: the evaluation error
 		{false, 3, qStmt1, []st{{"open", 0}, {"src_ps", 0}, {"open", 0}, {"next", 0}, {"close", 0}, {"open", 0}, {"src_ps", 0}, {"open", 0}, {"next", 0}}},
 		{true, 3, qSrc, []st{{"open", 0}, {"src_sv", 0}, {"open", 0}, {"next", 0}, {"close", 0}, {"open", 0}, {"src_sv", 0}, {"open", 0}, {"while", 0}}},
+		// the evaluation fails after the view was built (SELECT … INTO with more than one row): the failed OPEN leaves
+		// the cursor closed (seed C16-m6); with one row / no row it opens
+		{false, 3, qInto, []st{{"open", 0}, {"isopen", 0}, {"next", 0}, {"count", 0}, {"inrange", 0}, {"open", 0}, {"close", 0}, {"open", 0}, {"while", 0}}},
+		{true, 1, qInto, []st{{"open", 0}, {"isopen", 0}, {"next", 0}, {"next", 0}, {"close", 0}, {"open", 0}, {"count", 0}}},
+		{false, 0, qInto, []st{{"open", 0}, {"next", 0}, {"count", 0}}},
+		// the negated status expressions in every state: never opened, open and not fetched (UNKNOWN stays UNKNOWN), on a
+		// row, behind the last row, closed
+		{false, 2, qAll, []st{{"not_isopen", 0}, {"not_inrange", 0}, {"open", 0}, {"not_isopen", 0}, {"not_inrange", 0}, {"inrange", 0}, {"next", 0}, {"not_inrange", 0},
+			{"last", 0}, {"next", 0}, {"not_inrange", 0}, {"inrange", 0}, {"close", 0}, {"not_isopen", 0}, {"not_inrange", 0}}},
 		// errors
 		{true, 2, qOneCol, []st{{"next", 0}, {"count", 0}, {"inrange", 0}, {"isopen", 0}, {"while", 0}, {"open", 0}, {"open", 0}, {"declare", 0}, {"close", 0}, {"close", 0},
 			{"next", 0}, {"dispose", 0}, {"next", 0}, {"open", 0}, {"close", 0}, {"dispose", 0}, {"isopen", 0}, {"fetchbad", 0}}},
@@ -1458,6 +1505,14 @@ func scripted(g *hc.Gen, o *hc.Out, dir string, seed int64) (int, string) {
 				h.stepStatus(1)
 			case "inrange":
 				h.stepStatus(2)
+			case "not_isopen":
+				h.forceNeg = true
+				h.stepStatus(1)
+				h.forceNeg = false
+			case "not_inrange": // NOT UNKNOWN is UNKNOWN (seed C16-m10)
+				h.forceNeg = true
+				h.stepStatus(2)
+				h.forceNeg = false
 			case "fetchbad":
 				h.stepFetchBad()
 			case "fetchinto":
@@ -1539,15 +1594,29 @@ func main() {
 			}
 		}()
 		total, k := 0, 0
+		// OPEN / CLOSE of a cursor from inside its own OPEN (known finding F100): two sessions beside the stream
+		probes := startSelfProbes()
+		defer collectSelfProbes(o, probes)
 		total, dir = scripted(g, o, dir, seed)
+		if hungHistories < 3 {
+			var m int
+			m, dir = scriptedReentrant(g, o, dir)
+			total += m
+		}
+		total += concurrentFetchers(g, o, dir)
 		for total < n {
 			h := &hist{g: g, o: o, dir: dir, seedTag: fmt.Sprintf("seed=%d history=%d", seed, k)}
+			if k%2 == 1 && setPoison(true) {
+				h.seedTag += " (discarded values poisoned)"
+				o.Count("histories_poisoned")
+			}
 			h.setup(false, -1)
 			steps := 10 + g.Intn(60)
 			if steps > n-total {
 				steps = n - total
 			}
 			total += h.run(steps) + 1
+			setPoison(false)
 			dir = endHistory(h, base, dir)
 			if hungHistories >= 3 {
 				o.Count("stream_cut_short_after_hangs")
